@@ -522,152 +522,150 @@ def execute(trace, rng):
 
 
 def _do_op(w, trace, op, n, k, log, color):
-    if True:
-        if True:
-            if k == "conf_new":
-                init = trace["inits"][op["init"] % len(trace["inits"])]
-                conf = w.sut("ColorsConfig", color.ColorsConfig, init, no_color=bool(op.get("no_color")))
-                w.confs[op["slot"]] = ConfModel(op["init"] % len(trace["inits"]), bool(op.get("no_color")), conf)
-                w.stats["conf_new"] += 1
-            elif k == "conf_drop":
-                cm = w.confs.pop(op["slot"], None)
-                if cm is not None:
-                    if cm is not w.global_cm:
-                        cm.conf = None
-                    w.dropped += 1
-                    w.stats["conf_dropped"] += 1
-            elif k == "conf_global":
-                cm = w.confs.get(op["slot"])
-                if cm is None or cm.conf is None:
-                    return
-                w.sut("set_global_colors_config", color.set_global_colors_config, cm.conf)
-                w.global_cm = cm
-                w.stats["conf_global"] += 1
-            elif k == "conf_global_none":
-                w.sut("set_global_colors_config(None)", color.set_global_colors_config, None)
-                w.global_cm = ConfModel(None, False, color.get_global_colors_config())
-                w.stats["conf_global"] += 1
-            elif k == "conf_add":
-                cm = w.conf_model(op["slot"])
-                if cm is None or cm.conf is None:
-                    return
-                w.sut("add_new_items", cm.conf.add_new_items, dict(op["batch"]), "user")
-                cm.batches.append(dict(op["batch"]))
-                cm.version += 1
-                w.stats["conf_add"] += 1
-            elif k == "touch":
-                cm = w.conf_model(op["slot"])
-                cls = rw.ro.TOUCHABLE.get(op["cls"])
-                if cm is None or cm.conf is None or cls is None:
-                    return
-                if op.get("synced") and op["cls"] in rw.ro.SYNCABLE:
-                    w.sut(f"{op['cls']}(synced=True)", cls, synced=True)
-                else:
-                    w.sut(f"{op['cls']}(conf)", cls, cm.conf, bool(op.get("no_color")))
-                w.stats["touch"] += 1
-            elif k == "gc":
-                gc.collect()
-                w.stats["gc_runs"] += 1
-            elif k == "obj_new":
-                j = op["spec"] % len(trace["objs"])
-                spec = trace["objs"][j]
-                enums = {}
-                if spec.get("types"):
-                    for i in set(spec["types"].values()):
-                        enums[i] = w.enum(i)
-                built = w.guarded(f"build-{spec['kind']}", (j, {"init": {}, "no_color": False, "batches": []},
-                                                            {"via": "explicit", "no_color": True, "palette": None}),
-                                  rw.ro.build_object, spec, enums)
-                w.objs[op["slot"]] = (built, j)
-                w.obj_confs_used.pop(op["slot"], None)
-                w.stats["obj_new"] += 1
-            elif k == "render":
-                t = w.start(op)
-                if t is None:
-                    return
-                how = op.get("how", "str")
-                kind = trace["objs"][t.spec_idx]["kind"]
-                if how == "lines" and kind in ("recfmt", "ppwrap"):
-                    how = "str"       # a formatted record / a wrapper has no line structure
-                if how == "dunder" and (kind in ("recfmt", "pp", "hdoc") or t.mode["via"] != "global"
-                                        or t.mode["no_color"] or t.mode.get("palette")):
-                    how = "str"
-                if how == "lines":
-                    lines = w.guarded("iterate-lines", t.ctx(), lambda: [rw.ro.line_to_str(x) for x in rw.ro.line_iter(t.r)])
-                    text = "\n".join(lines)
-                    whole = w.guarded("whole-text", t.ctx(), rw.ro.whole_text, t.r, "str")
-                    if sgr.canon(text) != sgr.canon(whole):
-                        raise Violation("O4", "lines-differ-from-whole",
-                                        f"{kind}: joined lines differ from the whole text of the same result: "
-                                        + first_diff(text, whole))
-                    w.stats["lines_vs_whole"] += 1
-                    w.check_text(t, text, "lines")
-                else:
-                    text = w.guarded("whole-text", t.ctx(), rw.ro.whole_text, t.r, how)
-                    w.check_text(t, text, how)
-                log.add("render", n, hashlib.blake2b(text.encode(), digest_size=6).hexdigest())
-            elif k == "task_start":
-                ent0 = w.objs.get(op["obj"])
-                if ent0 is not None and ent0[0].kind == "ppwrap":
-                    return      # str(wrapper) renders when it is called: there is no request to defer
-                t = w.start(op)
-                if t is None:
-                    return
-                old = w.tasks.pop(op["task"], None)
-                if old is not None and old.it is not None:
-                    old.it.close() if hasattr(old.it, "close") else None
-                    w.stats["tasks_abandoned"] += 1
-                w.tasks[op["task"]] = t
-            elif k == "task_step":
-                t = w.tasks.get(op["task"])
-                if t is None:
-                    return
-                if t.it is None:
-                    t.it = w.guarded("iter(result)", t.ctx(), rw.ro.line_iter, t.r)
-                for _ in range(op.get("n", 1)):
-                    try:
-                        line = w.guarded("next(line)", t.ctx(), _next, t.it)
-                    except StopIteration:
-                        break
-                    if line is _END:
-                        _finish_task(w, t, op["task"], log, n)
-                        break
-                    t.lines.append(rw.ro.line_to_str(line))
-                    w.stats["task_steps"] += 1
-            elif k == "task_drain":
-                t = w.tasks.get(op["task"])
-                if t is None:
-                    return
-                if t.it is None:
-                    t.it = w.guarded("iter(result)", t.ctx(), rw.ro.line_iter, t.r)
-                while True:
-                    line = w.guarded("next(line)", t.ctx(), _next, t.it)
-                    if line is _END:
-                        break
-                    t.lines.append(rw.ro.line_to_str(line))
-                    w.stats["task_steps"] += 1
+    if k == "conf_new":
+        init = trace["inits"][op["init"] % len(trace["inits"])]
+        conf = w.sut("ColorsConfig", color.ColorsConfig, init, no_color=bool(op.get("no_color")))
+        w.confs[op["slot"]] = ConfModel(op["init"] % len(trace["inits"]), bool(op.get("no_color")), conf)
+        w.stats["conf_new"] += 1
+    elif k == "conf_drop":
+        cm = w.confs.pop(op["slot"], None)
+        if cm is not None:
+            if cm is not w.global_cm:
+                cm.conf = None
+            w.dropped += 1
+            w.stats["conf_dropped"] += 1
+    elif k == "conf_global":
+        cm = w.confs.get(op["slot"])
+        if cm is None or cm.conf is None:
+            return
+        w.sut("set_global_colors_config", color.set_global_colors_config, cm.conf)
+        w.global_cm = cm
+        w.stats["conf_global"] += 1
+    elif k == "conf_global_none":
+        w.sut("set_global_colors_config(None)", color.set_global_colors_config, None)
+        w.global_cm = ConfModel(None, False, color.get_global_colors_config())
+        w.stats["conf_global"] += 1
+    elif k == "conf_add":
+        cm = w.conf_model(op["slot"])
+        if cm is None or cm.conf is None:
+            return
+        w.sut("add_new_items", cm.conf.add_new_items, dict(op["batch"]), "user")
+        cm.batches.append(dict(op["batch"]))
+        cm.version += 1
+        w.stats["conf_add"] += 1
+    elif k == "touch":
+        cm = w.conf_model(op["slot"])
+        cls = rw.ro.TOUCHABLE.get(op["cls"])
+        if cm is None or cm.conf is None or cls is None:
+            return
+        if op.get("synced") and op["cls"] in rw.ro.SYNCABLE:
+            w.sut(f"{op['cls']}(synced=True)", cls, synced=True)
+        else:
+            w.sut(f"{op['cls']}(conf)", cls, cm.conf, bool(op.get("no_color")))
+        w.stats["touch"] += 1
+    elif k == "gc":
+        gc.collect()
+        w.stats["gc_runs"] += 1
+    elif k == "obj_new":
+        j = op["spec"] % len(trace["objs"])
+        spec = trace["objs"][j]
+        enums = {}
+        if spec.get("types"):
+            for i in set(spec["types"].values()):
+                enums[i] = w.enum(i)
+        built = w.guarded(f"build-{spec['kind']}", (j, {"init": {}, "no_color": False, "batches": []},
+                                                    {"via": "explicit", "no_color": True, "palette": None}),
+                          rw.ro.build_object, spec, enums)
+        w.objs[op["slot"]] = (built, j)
+        w.obj_confs_used.pop(op["slot"], None)
+        w.stats["obj_new"] += 1
+    elif k == "render":
+        t = w.start(op)
+        if t is None:
+            return
+        how = op.get("how", "str")
+        kind = trace["objs"][t.spec_idx]["kind"]
+        if how == "lines" and kind in ("recfmt", "ppwrap"):
+            how = "str"       # a formatted record / a wrapper has no line structure
+        if how == "dunder" and (kind in ("recfmt", "pp", "hdoc") or t.mode["via"] != "global"
+                                or t.mode["no_color"] or t.mode.get("palette")):
+            how = "str"
+        if how == "lines":
+            lines = w.guarded("iterate-lines", t.ctx(), lambda: [rw.ro.line_to_str(x) for x in rw.ro.line_iter(t.r)])
+            text = "\n".join(lines)
+            whole = w.guarded("whole-text", t.ctx(), rw.ro.whole_text, t.r, "str")
+            if sgr.canon(text) != sgr.canon(whole):
+                raise Violation("O4", "lines-differ-from-whole",
+                                f"{kind}: joined lines differ from the whole text of the same result: "
+                                + first_diff(text, whole))
+            w.stats["lines_vs_whole"] += 1
+            w.check_text(t, text, "lines")
+        else:
+            text = w.guarded("whole-text", t.ctx(), rw.ro.whole_text, t.r, how)
+            w.check_text(t, text, how)
+        log.add("render", n, hashlib.blake2b(text.encode(), digest_size=6).hexdigest())
+    elif k == "task_start":
+        ent0 = w.objs.get(op["obj"])
+        if ent0 is not None and ent0[0].kind == "ppwrap":
+            return      # str(wrapper) renders when it is called: there is no request to defer
+        t = w.start(op)
+        if t is None:
+            return
+        old = w.tasks.pop(op["task"], None)
+        if old is not None and old.it is not None:
+            old.it.close() if hasattr(old.it, "close") else None
+            w.stats["tasks_abandoned"] += 1
+        w.tasks[op["task"]] = t
+    elif k == "task_step":
+        t = w.tasks.get(op["task"])
+        if t is None:
+            return
+        if t.it is None:
+            t.it = w.guarded("iter(result)", t.ctx(), rw.ro.line_iter, t.r)
+        for _ in range(op.get("n", 1)):
+            try:
+                line = w.guarded("next(line)", t.ctx(), _next, t.it)
+            except StopIteration:
+                break
+            if line is _END:
                 _finish_task(w, t, op["task"], log, n)
-            elif k == "task_whole":
-                t = w.tasks.get(op["task"])
-                if t is None:
-                    return
-                how = op.get("how", "str")
-                text = w.guarded("whole-text", t.ctx(), rw.ro.whole_text, t.r, how)
-                w.check_text(t, text, how)
-                log.add("whole", n, hashlib.blake2b(text.encode(), digest_size=6).hexdigest())
-            elif k == "task_poke":
-                t = w.tasks.get(op["task"])
-                if t is None or t.r.res is None or w.trace["objs"][t.spec_idx]["kind"] not in ("pp", "table", "ghist"):
-                    return
-                w.guarded("poke-" + op["what"], t.ctx(), rw.ro.poke, t.r, op["what"])
-                w.stats["pokes"] = w.stats.get("pokes", 0) + 1
-            elif k == "task_abandon":
-                t = w.tasks.pop(op["task"], None)
-                if t is None:
-                    return
-                if t.it is not None and hasattr(t.it, "close"):
-                    w.sut("close(iterator)", t.it.close)
-                w.stats["tasks_abandoned"] += 1
+                break
+            t.lines.append(rw.ro.line_to_str(line))
+            w.stats["task_steps"] += 1
+    elif k == "task_drain":
+        t = w.tasks.get(op["task"])
+        if t is None:
+            return
+        if t.it is None:
+            t.it = w.guarded("iter(result)", t.ctx(), rw.ro.line_iter, t.r)
+        while True:
+            line = w.guarded("next(line)", t.ctx(), _next, t.it)
+            if line is _END:
+                break
+            t.lines.append(rw.ro.line_to_str(line))
+            w.stats["task_steps"] += 1
+        _finish_task(w, t, op["task"], log, n)
+    elif k == "task_whole":
+        t = w.tasks.get(op["task"])
+        if t is None:
+            return
+        how = op.get("how", "str")
+        text = w.guarded("whole-text", t.ctx(), rw.ro.whole_text, t.r, how)
+        w.check_text(t, text, how)
+        log.add("whole", n, hashlib.blake2b(text.encode(), digest_size=6).hexdigest())
+    elif k == "task_poke":
+        t = w.tasks.get(op["task"])
+        if t is None or t.r.res is None or w.trace["objs"][t.spec_idx]["kind"] not in ("pp", "table", "ghist"):
+            return
+        w.guarded("poke-" + op["what"], t.ctx(), rw.ro.poke, t.r, op["what"])
+        w.stats["pokes"] = w.stats.get("pokes", 0) + 1
+    elif k == "task_abandon":
+        t = w.tasks.pop(op["task"], None)
+        if t is None:
+            return
+        if t.it is not None and hasattr(t.it, "close"):
+            w.sut("close(iterator)", t.it.close)
+        w.stats["tasks_abandoned"] += 1
 
 
 def _finish(w, trace, status, log, alloc):
